@@ -442,8 +442,9 @@ class PooledClient(Entity):
                 delay,
             )
 
-            # Wait for retry delay
-            yield delay
+            # Wait for retry delay. The pool's idle-timeout check for the released
+            # connection is scheduled now: after the wait it could lie in the past.
+            yield delay, release_events
 
             # Create retry event
             retry_event = Event(
@@ -462,10 +463,7 @@ class PooledClient(Entity):
                 },
             )
 
-            all_events = [retry_event]
-            if release_events:
-                all_events.extend(release_events)
-            return all_events
+            return [retry_event]
 
         # No more retries - fail the request
         self._in_flight.pop(flight_key)
